@@ -216,7 +216,8 @@ def spaces(tier, variant, seed):
             R.fail("gmp_randclear", "%s: allocator contract: %s" % (tag, lib.alloc_msg()))
             lib.S.v_reset_errors()
         R.count("states", len(seq))
-        return (ki, si, seq[:2], hash(tuple(str(o) for o in outs1)) & 0xFF)
+        import zlib
+        return (ki, si, seq[:2], zlib.crc32(repr(outs1).encode()) & 0xFF)
 
     hb = [(ki, si) for ki in range(len(KINDS)) for si in range(len(SEEDS))]
     if variant == "asan":
